@@ -121,8 +121,12 @@ class CompositeMove(Generic[MoveType]):
         removed_indices : IntegerArray
             The indices of the atoms to remove.
         """
+        notified = set()
+
         for move in self.moves:
-            move.on_atoms_changed(added_indices, removed_indices)
+            if id(move) not in notified:
+                notified.add(id(move))
+                move.on_atoms_changed(added_indices, removed_indices)
 
     def on_cell_changed(self, new_cell: Cell) -> None:
         """
